@@ -62,6 +62,57 @@ def _bio(op, t):
     raise KeyError(op)
 
 
+def _codon_arg(tok):
+    """`seq:TEXT` = a Sequence-typed constructor argument"""
+    if tok.startswith("seq:"):
+        return Sequence(tok[4:], Alphabet.NT_EXTENDED)
+    return tok
+
+
+def _ask(f, show):
+    try:
+        return show(f())
+    except Exception:  # noqa  (a question that raises is reported as `!`; the spec then fails the line)
+        return "!"
+
+
+def _answers(obj):
+    ob = lambda b: "T" if b is True else "F" if b is False else "!"   # noqa
+    ch = lambda c: c if isinstance(c, str) and len(c) == 1 else "!"   # noqa
+    syn = lambda cs: f"{len(cs)}:" + ",".join(str(c) for c in cs)      # noqa
+    out = [_ask(lambda: str(obj), lambda s: s if s and " " not in s else "!"),
+           _ask(lambda: obj.translate(strict=True), ch), _ask(lambda: obj.translate(strict=False), ch),
+           _ask(lambda: obj.is_stop_codon, ob), _ask(lambda: obj.is_strict_codon, ob),
+           _ask(lambda: obj.is_canonical_start_codon, ob)]
+    for tab in (TranslationTable.DEFAULT, TranslationTable.STANDARD, TranslationTable.PROKARYOTE):
+        out.append(_ask(lambda: obj.is_start_codon_in_specific_translation_table(tab), ob))
+    out.append(_ask(lambda: obj.synonymous_codons(include_self=False), syn))
+    out.append(_ask(lambda: obj.synonymous_codons(include_self=True), syn))
+    return " ".join(out)
+
+
+def _hist(t):
+    """hold Codon(held); answers; construct every other spelling (accepted or refused); answers again; identity."""
+    held_tok, n = t[1], int(t[2])
+    sps = t[3:3 + n]
+    held = Codon(_codon_arg(held_tok))          # refusal of the held text itself propagates (err ValueError)
+    a0 = _answers(held)
+    outs = []
+    for sp in sps:
+        try:
+            other = Codon(_codon_arg(sp))
+            outs.append("OY" if other is held else "ON")
+        except (ValueError, AlphabetError):
+            outs.append("X-")
+    a1 = _answers(held)
+    ob = lambda b: "T" if b is True else "F"   # noqa
+    text = held_tok[4:] if held_tok.startswith("seq:") else held_tok
+    hsh = ob(hash(held) == hash(text.upper()))
+    again = Codon(_codon_arg(held_tok))
+    same, eq = ob(again is held), ob((held == again) is True)
+    return f"ok {a0} | {len(outs)} {' '.join(outs)} | {a1} | {same} {eq} {hsh}"
+
+
 def impl_tab_op(line):
     t = [x for x in line.split(" ") if x != ""]
     op = t[0]
@@ -69,6 +120,8 @@ def impl_tab_op(line):
     def go():
         if op.startswith("bio."):
             return _bio(op, t)
+        if op == "hist":
+            return _hist(t)
         if op == "translate":
             r = Codon(t[1]).translate(strict=(t[2] == "1"))
             if not (isinstance(r, str) and len(r) == 1):
